@@ -916,7 +916,10 @@ class reactive_ops:
             params = self._reactive._params
         else:
             params = resolve_ref(self._reactive)
-        trigger = Trigger(parameters=params)
+        # The trigger stands for changes of the branch references, which are
+        # not parameters of the condition: listing them keeps the trigger
+        # among the parameters that expressions built on this one depend on
+        trigger = Trigger(parameters=params + xrefs + yrefs)
         if xrefs:
             def trigger_x(*args):
                 if self.value:
